@@ -57,7 +57,7 @@ func VpHSeq() {
 	var bws [2]uint64
 	for i := range bws {
 		bws[i] = vpU64("bandwidth")
-		vpAssume(vpAnd(bws[i] >= 1, bws[i] <= 1<<32))
+		vpAssume(vpAnd(bws[i] >= 1, bws[i] <= uint64(vpParam("seq.maxbw", 4))))
 	}
 	if vpChoose("preexisting", 2) == 1 {
 		stored, exists = vpU64("stored0"), true
